@@ -29,6 +29,7 @@ var checks = map[string]*checkDef{
 			{workload: "C13", variant: "plain", quick: 60000, thorough: 1500000},
 			{workload: "C13", variant: "purego", quick: 60000, thorough: 1500000},
 			{workload: "C13C", variant: "instrs", quick: 6000, thorough: 300000},
+			{workload: "C13C", variant: "instrs-purego", quick: 6000, thorough: 300000},
 			{workload: "C13", variant: "force32bit", thorough: 100000, thoroughOnly: true},
 			{workload: "C13", variant: "noavx2", thorough: 100000, thoroughOnly: true},
 		},
@@ -116,6 +117,8 @@ var checks = map[string]*checkDef{
 			{workload: "C06", variant: "noavx2", quick: 1200, thorough: 40000},
 			{workload: "C06", variant: "purego", quick: 1200, thorough: 40000},
 			{workload: "C06", variant: "force32bit", quick: 1200, thorough: 40000},
+			{workload: "C06C", variant: "instrs", quick: 4000, thorough: 200000},
+			{workload: "C06C", variant: "instrs-purego", quick: 4000, thorough: 200000},
 		},
 		assume: []string{
 			"the oracle is self-differential: the same seeds are executed on the four builds (amd64 assembly + AVX2, GODEBUG=cpu.avx2=off, -tags purego, -tags force32bit) and the per-run event-log digests must be equal; a defect shared by all four backends is invisible",
